@@ -16,11 +16,11 @@ ALL_BAR_OPS = {"tick", "inc", "set_message", "println", "suspend", "reset", "fin
 
 
 def fam(name, W=3, H=4, Multi=False, MaxBars=1, D=4, BarOps=("tick",), MpOps=(), MsgShapes=("a",), TextShapes=("T",),
-        Tpls=("M",), Fins=("AndLeave",), Hz=0, DTs=(0,), Base=1, Align="top", M0="e", TabWs=(8,), Pre=0, Once=False, Tgt="auto", Faults=(), mode="bfs", shards=8):
+        Tpls=("M",), Fins=("AndLeave",), Hz=0, DTs=(0,), Base=1, Align="top", M0="e", TabWs=(8,), Pre=0, Once=False, Tgt="auto", Faults=(), Cover=False, mode="bfs", shards=8):
     return dict(name=name, mode=mode, shards=shards,
                 constants=dict(W=W, H=H, Multi=Multi, MaxBars=MaxBars, D=D, BarOps=set(BarOps), MpOps=set(MpOps),
                                MsgShapes=set(MsgShapes), TextShapes=set(TextShapes), Tpls=set(Tpls), Fins=set(Fins),
-                               Hz=Hz, DTs=set(DTs), Base=Base, Align=Align, M0=M0, TabWs=set(TabWs), Pre=Pre, Once=Once, Tgt=Tgt, Faults=set(Faults)))
+                               Hz=Hz, DTs=set(DTs), Base=Base, Align=Align, M0=M0, TabWs=set(TabWs), Pre=Pre, Once=Once, Tgt=Tgt, Faults=set(Faults), Cover=Cover))
 
 
 def screen_check(pid, tier, seed, families, rules_note, need_paints=True, level="model_checking"):
@@ -32,7 +32,7 @@ def screen_check(pid, tier, seed, families, rules_note, need_paints=True, level=
     per_family = []
     for f in families:
         wd = vlib.workdir("%s_%s_gen" % (pid, f["name"]))
-        cfg = vlib.cfg_text(f["constants"], invariants=["TypeOK"])
+        cfg = vlib.cfg_text(f["constants"], invariants=["TypeOK"], view="CoverView" if f["constants"].get("Cover") else None)
         mode = f["mode"]
         if mode == "bfs":
             out, dist, gen = vlib.run_tlc("MC_Screen", cfg, wd, mode=mode, workers=4 if tier == "quick" else 8)
@@ -107,8 +107,11 @@ def c02(pid, tier, seed):
             Tpls=("M",), Fins=("AndLeave",), M0="id", shards=12),
         fam("multi_life", W=4, H=8, Multi=True, MaxBars=2, D=5 if q else 6, BarOps=("tick", "set_message", "finish", "finish_and_clear", "drop", "mp_remove"),
             MpOps=("mp_println", "mp_clear"), MsgShapes=("a", "W1"), TextShapes=("T",), Fins=("AndLeave", "AndClear"), M0="id", shards=12),
-        fam("multi_zombie_orders", W=4, H=12, Multi=True, MaxBars=3, Pre=3, Once=True, D=10 if q else 11, BarOps=("finish", "drop"), MpOps=("mp_println",),
-            TextShapes=("T",), Tpls=("M",), Fins=("AndLeave",), M0="id", shards=12),
+    ] + ([] if q else [
+        fam("multi_zombie_orders", W=4, H=12, Multi=True, MaxBars=3, Pre=3, Once=True, D=11, BarOps=("finish", "drop"), MpOps=("mp_println",),
+            TextShapes=("T",), Tpls=("M",), Fins=("AndLeave",), M0="id", shards=12)]) + [
+        fam("multi_zombie_cover", W=4, H=14, Multi=True, MaxBars=4, Pre=3, Once=True, Cover=True, D=13 if q else 15, BarOps=("finish", "drop", "tick"), MpOps=(),
+            Tpls=("M",), Fins=("AndLeave",), M0="id", shards=12),
         fam("multi_limited", W=4, H=12, Multi=True, MaxBars=2, D=5 if q else 6, BarOps=("burst", "set_message", "finish", "drop", "tick"), MpOps=(),
             MsgShapes=("a",), Tpls=("M",), Fins=("AndLeave",), Hz=2, DTs=(0,), M0="id", shards=12),
         fam("multi_deep", W=5, H=40, Multi=True, MaxBars=4, D=30, BarOps=ALL_BAR_OPS | {"mp_remove"}, MpOps=("insert", "insert_rel", "mp_println", "mp_suspend", "mp_clear", "mp_set_alignment"),
